@@ -10,8 +10,10 @@ PROP = {'gen': [],
                'Utf8Decoder inside the io::Write adapters, view::Text})',
  'level_text': 'Coq theorems over an executable model of Cell::layout, TerminalWriter::put_cell (glyph fallback, overlay, face fill), the '
                'three io::Write adapters (UTF-8 decoder, escape-sequence tokenizer over any automaton) and Text::layout/render: every '
-               'client program leaves cells outside the view unchanged and never panics; the slice does not depend on how written bytes '
-               'are partitioned; a text rendered at the size its layout reported shows every printable cell exactly once in reading '
+               'client program (put_char/put_cell/set_face/set_wraps/set_cursor/writes) leaves cells outside the view unchanged and never '
+               'panics; for a caller that stops a write operation at its first Err, outcome and writer state do not depend on how written '
+               'bytes are partitioned (a caller ignoring Err can observe the split: C09_ignoring_errors_refuted); the escape-sequence '
+               'write loop as coded equals the fold over bytes for any automaton; a text rendered at the size its layout reported shows every printable cell exactly once in reading '
                'order (without wrapping: exactly those not beyond the right edge). Model tied to the code by a differential run '
                '(canvas of sentinel cells, plain/offset/strided/transposed views, all partitions of short strings).',
  'level_note': 'Trusted: Coq kernel + vm_compute; hand-written model validated by the correspondence run; char widths (unicode-width), '
